@@ -131,18 +131,18 @@ ADDENDA = {
  "C17": "; implicit-Stringer re-entrancy rule",
  "C18": "; quota-read-per-candidate rule (no cycle through the task call avoids the counter read); worker-count positivity rule",
  "C08": "; whole-config binding of sign/presign/online sessions",
- "C04": "; literal-aliasing rule (one reference object in two fields); divert-before-result rule in the presign rounds",
+ "C04": "; literal-aliasing rule (one reference object in two fields); divert-before-result rule in the presign rounds; reject-guard inventory of the abort proofs (zk/nth, zk/log) with the modulus accessor in the key",
  "C01": "; in-place-mutation (freshness) rule over presignature / configuration methods and all signing rounds; Lagrange consumption over the whole domain",
- "C02": "; whole-identifier rule on party.ID.Scalar; Lagrange rules on Config.PublicPoint; whole-table rule for in-place updates of caller-provided share tables; used-result rule over effect summaries",
+ "C02": "; whole-identifier rule on party.ID.Scalar; Lagrange rules on Config.PublicPoint; whole-table rule for in-place updates of caller-provided share tables; used-result rule over effect summaries; sibling-roles rule on the Doerner key generation (same-named state fields updated under the same conditions)",
  "C03": "; first-copy-wins rule on Accept/store; party-loop completeness rule (no sub-slices of participant lists); failure-is-reported rule on every error test (the return on the non-nil edge carries a non-nil error)",
  "C05": "; overflow-safety rule on allocation bounds (no narrow arithmetic on untrusted sizes); direct nil-comparison rule for pre-shaped sub-protocol messages; failure-is-reported rule; decoded-pointer nil rule on CBOR decoder call sites; untabled explicit panic sites decided by call-graph reachability from the uncontained roots (pool worker entry, decoder / CanAccept entry points)",
- "C06": "; first-copy-wins rule; no-early-accept rule on checkBroadcastHash",
- "C07": "; queue-key rule (messages filed under their own RoundNumber/From in both handlers); filter-first rule (every effect of Accept dominated by canAccept); queue-delete rule",
+ "C06": "; first-copy-wins rule; no-early-accept rule on checkBroadcastHash; queue-choice agreement between duplicate and store",
+ "C07": "; queue-key rule (messages filed under their own RoundNumber/From in both handlers); filter-first rule (every effect of Accept dominated by canAccept); queue-delete rule; session-tag completeness/ordering rule of C09",
  "C09": "; order rule (nothing hashed after the ssid snapshot); total-writer and complete-writer rules; session-identifier content-forwarding rule at every NewSession call; used-result rule over interprocedural effect summaries (a discarded effect-free call is a missing write)",
  "C10": "; frozen parameter table: security constants, bit bounds of the interval predicates, widths of the samplers; single-bit mask rule",
- "C11": "; session-identifier content-forwarding rule; byte-stream rule on TaggedHash; tag-completeness of NewSession; used-result rule over effect summaries",
+ "C11": "; session-identifier content-forwarding rule; byte-stream rule on TaggedHash; tag-completeness of NewSession; used-result rule over effect summaries; accumulating-sink rule on WriteAny",
  "C12": "; operand-identity rule on Ciphertext.Mul/Add; capacity rule on plain big-number operations (never derived from one prime factor); fresh-return rule for Exp/ExpI",
- "C13": "; whole-array rule for fixed-size equality tests; word-stride rule for loop-indexed fixed-width loads",
+ "C13": "; whole-array rule for fixed-size equality tests; word-stride rule for loop-indexed fixed-width loads; lost-update rule over effect summaries (a result-less call that writes only into copies)",
  "C14": "; commit/reveal binding rule for chain-key contributions; must-pass-through rule for the chain-key combination on both Doerner sides",
  "C15": "; inverse-mapping rule between marshal and unmarshal; no-omitempty rule on wire structs; own-entry-from-secret rule in the CMP config decoder; decoded-pointer nil rule",
  "C16": "; R/S in-place pairing rule on SigEthereum; nonce-mask-from-adjusted-key rule; hash-to-scalar excess rule",
